@@ -301,7 +301,11 @@ func runC15(c *hx.Ctx) *hx.Outcome {
 		h := rtcm.New(startTime, level)
 		n := 150 + t.S(1400)
 		var pan string
-		func() {
+		finished := false
+		// (from a scheduled goroutine: should the code under test leave a lock of its
+		// own locked, the run ends as a deadlock verdict instead of a blocked worker)
+		hs := c.NewSim()
+		hv := hs.Run(func() {
 			defer func() {
 				if r := recover(); r != nil {
 					pan = fmt.Sprint(r)
@@ -309,6 +313,9 @@ func runC15(c *hx.Ctx) *hx.Outcome {
 			}()
 			for i := 0; i < n; i++ {
 				h.GetMessage(shared[t.S(len(pool))])
+				if i%64 == 0 {
+					rt.Progress()
+				}
 			}
 			for fi := range pool {
 				m, _ := h.GetMessage(shared[fi])
@@ -316,9 +323,12 @@ func runC15(c *hx.Ctx) *hx.Outcome {
 					check(fmt.Sprintf("after a history of %d frames through one handler, frame %d", n, fi), *m, fi, 2, false)
 				}
 			}
-		}()
+			finished = true
+		})
 		if pan != "" {
 			o.Fail("C15/panic", "after a history of %d frames: %s", n, pan)
+		} else if !finished {
+			o.Fail("C15/hang", "decoding and displaying a history of %d frames through one handler did not finish (verdict %s): a lock never released?", n, hv)
 		}
 		if c.Detail {
 			o.Sample = map[string]interface{}{"mode": "long history through one handler", "history_length": n, "frames": len(pool), "log_level": level.String()}
